@@ -285,7 +285,8 @@ def visitAssign (ctx : Nat) (name : Name) (s : St) : St :=
     if isModuleCls o.cls then
       if dhas o.contents name then s else addObj s .attribute name ctx
     else
-      if !maybeAttribute s ctx name then s
+      -- `if not _maybeAttribute(cls, name) and not (name not in cls.contents and <expr is a literal>): return`
+      if !maybeAttribute s ctx name && dhas o.contents name then s
       else if dhas o.contents name then s else addObj s .attribute name ctx
 
 /-- `visit_ClassDef` up to `pushClass`: the bases are expanded in the enclosing scope, the class
@@ -645,6 +646,13 @@ def boundOnce (proj : Project) (rank : List Nat) : Bool :=
   (List.range proj.length).all fun m =>
     nodupB (modNames proj (rankOf rank m + 1) m) && classNodupStmts (bodyOf proj m)
 
+/-- globally unique names: no two modules / definitions end in the same name -/
+def namesUnique (proj : Project) : Bool := nodupB ((entities proj).map (fun S => (sitePath proj S).getLast?))
+
+/-- base-class expressions are names -/
+def basesNonempty (proj : Project) : Bool :=
+  allProj proj fun _ _ st => match st with | .classDef _ bs _ => bs.all (fun b => !b.isEmpty) | _ => true
+
 /-- no definition is named like a superseded duplicate (`name 0`): names contain no space -/
 def namesOk (proj : Project) : Bool :=
   allProj proj fun _ _ st => match st.defName with
@@ -652,12 +660,13 @@ def namesOk (proj : Project) : Bool :=
     | none => true
 
 /-- **WF**: the property's quantifier — an acyclic multi-package project (`rank` is a topological
-index), qualified names of definitions unique, each name bound once per scope — plus the
-restrictions under which the theorems are proved: imports stay inside the project, no base
-classes, no `__all__` re-exports, root names reserved for the root modules. -/
+index), names of definitions globally unique, each name bound once per scope — plus the
+restrictions under which the theorems are proved: imports stay inside the project, no `__all__`
+re-exports, root names reserved for the root modules.  (Base classes are allowed.) -/
 def WF (proj : Project) (rank : List Nat) : Bool :=
   modulesOk proj && pathsUnique proj && importsOk proj rank && boundOnce proj rank &&
-  noBases proj && noStarInClass proj && noReexport proj && rootsReserved proj && namesOk proj
+  namesUnique proj && basesNonempty proj && noStarInClass proj && noReexport proj && rootsReserved proj &&
+  namesOk proj
 
 
 end Imports
